@@ -235,6 +235,20 @@ func (c *Ctx) Unit(desc func() string) bool {
 	return true
 }
 
+// Sub records the case currently executing inside a unit (for hang/crash reports).
+func (c *Ctx) Sub(desc string) {
+	c.curDesc.Store(desc)
+	if c.progress != nil {
+		rec := fmt.Sprintf("%d\t%s", c.curUnit.Load(), desc)
+		if len(rec) > 4000 {
+			rec = rec[:4000]
+		}
+		buf := make([]byte, 4096)
+		copy(buf, rec)
+		c.progress.WriteAt(buf, 0)
+	}
+}
+
 func (c *Ctx) endUnit() {
 	if c.curStart.Load() != 0 {
 		c.curStart.Store(0)
@@ -499,7 +513,7 @@ func checkMain(args []string) {
 		wg.Add(1)
 		go func(s *shardState) {
 			defer wg.Done()
-			for !s.done && s.restarts < 12 && !stopAll.Load() {
+			for !s.done && s.restarts < 12 && !stopAll.Load() && harnessErr.Load() == nil {
 				prog := filepath.Join(tmp, fmt.Sprintf("progress-%d", s.idx))
 				os.Remove(prog)
 				var sk []string
@@ -592,8 +606,18 @@ func checkMain(args []string) {
 		}
 	}
 
+	if he := harnessErr.Load(); he != nil {
+		fmt.Printf("HARNESS-ERROR: a worker of %s panicked outside the code under test (this is a bug in /verif, not a verdict):\n%s\n", id, he)
+		os.Exit(2)
+	}
 	for _, h := range hangs {
-		addViol(total.Viols, "HANG/CRASH "+h.why, h.desc, map[string]any{"kind": "hang", "check": id, "unit": h.unit, "desc": h.desc, "why": h.why, "tier": tier})
+		kind := "worker died"
+		if strings.HasPrefix(h.why, "heap") {
+			kind = "memory"
+		} else if strings.HasPrefix(h.why, "no progress") {
+			kind = "time"
+		}
+		addViol(total.Viols, "HANG/CRASH "+kind, h.desc, map[string]any{"kind": "hang", "check": id, "unit": h.unit, "desc": h.desc, "why": h.why, "tier": tier})
 	}
 
 	// report
@@ -712,6 +736,8 @@ type hangRec struct {
 // runWorker starts one worker, feeds deltas to onDelta and returns the last unit
 // index covered by a delta, a hang record if the watchdog fired, and whether the
 // worker finished normally.
+var harnessErr atomic.Value // first unrecovered Go panic of a worker (= bug in the harness, never a violation)
+
 func runWorker(wargs []string, tmp string, onDelta func(*Agg), s *shardState) (int64, *hangRec, bool) {
 	pr, pw, _ := os.Pipe()
 	cmd := exec.Command(os.Args[0], wargs...)
@@ -772,6 +798,9 @@ func runWorker(wargs []string, tmp string, onDelta func(*Agg), s *shardState) (i
 		}
 		if len(b) > 0 {
 			fmt.Fprintf(os.Stderr, "[worker %v died] %s\n", wargs[:2], strings.TrimSpace(string(b)))
+			if strings.HasPrefix(strings.TrimSpace(string(b)), "panic:") {
+				harnessErr.CompareAndSwap(nil, strings.TrimSpace(string(b)))
+			}
 		}
 	}
 	errf.Close()
